@@ -12,7 +12,8 @@ EXPLANATION = (
     "files are appended to the connection's list on every path that received them, including the path "
     "that then reports end of stream; a completed request is queued only after the whole list was moved "
     "into it by an order-preserving chain (drain(..) + collect); the list is mutated only by extend / "
-    "drain / clear; none of try_clone, dup, into_raw_fd, as_raw_fd->from_raw_fd, mem::forget, "
+    "drain / clear, taken only by the completion step and the parser reset, and a request under construction "
+    "starts with an empty list (the completion step assigns the field); none of try_clone, dup, into_raw_fd, as_raw_fd->from_raw_fd, mem::forget, "
     "ManuallyDrop is applied in connection.rs / request.rs. With File: !Clone and drop-closes these "
     "imply exactly-once, ordered, leak-free delivery."
 )
